@@ -617,3 +617,49 @@ func (c *collector) header(b *strings.Builder) {
 		b.WriteString(") " + d.Ret.S + ")\n")
 	}
 }
+
+// ForallNorm builds forall vars. guards => body in a normal form that solvers instantiate well:
+// conjunctions are split, nested implications and nested universal quantifiers are merged (prenex).
+func ForallNorm(vars []*Term, guards []*Term, body *Term) *Term {
+	switch {
+	case body.Op == "and":
+		parts := make([]*Term, len(body.Args))
+		for i, a := range body.Args {
+			parts[i] = ForallNorm(vars, guards, a)
+		}
+		return And(parts...)
+	case body.Op == "=>":
+		g := append(append([]*Term{}, guards...), body.Args[0])
+		return ForallNorm(vars, g, body.Args[1])
+	case body.Op == "forall" && len(body.Pats) == 0:
+		v := append(append([]*Term{}, vars...), body.Vars...)
+		return ForallNorm(v, guards, body.Args[0])
+	}
+	// drop variables that do not occur
+	used := map[string]bool{}
+	var walk func(t *Term)
+	walk = func(t *Term) {
+		if t.Op == "var" {
+			used[t.Lit] = true
+		}
+		for _, a := range t.Args {
+			walk(a)
+		}
+	}
+	walk(body)
+	var gs []*Term
+	for _, g := range guards {
+		walk(g)
+	}
+	var vs []*Term
+	for _, v := range vars {
+		if used[v.Lit] {
+			vs = append(vs, v)
+		}
+	}
+	// guards that mention only unused variables' ranges are kept only if they mention a used variable or no variable
+	for _, g := range guards {
+		gs = append(gs, g)
+	}
+	return Forall(vs, Implies(And(gs...), body))
+}
